@@ -34,6 +34,8 @@ type Case struct {
 	HS string  `json:"hs"` // "plain" / "crypto"
 	// expected by the specification
 	Exp string `json:"exp"` // "fail", "plain", "rc4" ("cplain": crypto handshake, plaintext stream)
+	// the connection buffers writes, as a TCP socket does, instead of handing each write to a read (net.Pipe)
+	Buffered bool `json:"buffered"`
 	// segmentation
 	PadA  int    `json:"pada"`
 	PadB  int    `json:"padb"`
@@ -266,6 +268,26 @@ type rw struct {
 	io.Writer
 }
 
+// bufConn is one end of a duplex connection whose writes never block and
+// never fail, like a TCP socket with room in its buffers: the writer learns
+// nothing about what the reader does with the bytes.
+type bufConn struct {
+	in, out *pipeBuf
+}
+
+func newBufPair() (*bufConn, *bufConn) {
+	x, y := newPipeBuf(), newPipeBuf()
+	return &bufConn{in: x, out: y}, &bufConn{in: y, out: x}
+}
+func (c *bufConn) Read(p []byte) (int, error)         { return c.in.Read(p) }
+func (c *bufConn) Write(p []byte) (int, error)        { return c.out.Write(p) }
+func (c *bufConn) Close() error                       { c.in.Close(); c.out.Close(); return nil }
+func (c *bufConn) LocalAddr() net.Addr                { return &net.TCPAddr{IP: net.IPv4(192, 0, 2, 1), Port: 1} }
+func (c *bufConn) RemoteAddr() net.Addr               { return &net.TCPAddr{IP: net.IPv4(192, 0, 2, 2), Port: 2} }
+func (c *bufConn) SetDeadline(t time.Time) error      { return nil }
+func (c *bufConn) SetReadDeadline(t time.Time) error  { return nil }
+func (c *bufConn) SetWriteDeadline(t time.Time) error { return nil }
+
 func btHandshake(h, id hash.Hash, reserved [8]byte) []byte {
 	b := []byte{19}
 	b = append(b, "BitTorrent protocol"...)
@@ -315,7 +337,11 @@ func readAfter(c net.Conn, init []byte, n int) ([]byte, error) {
 // C08: policy table, real client against real server
 
 func runPolicy(c *Case, out *Out) {
-	a, b := net.Pipe()
+	var a, b net.Conn
+	a, b = net.Pipe()
+	if c.Buffered {
+		a, b = newBufPair()
+	}
 	ta, tb := &tap{Conn: a}, &tap{Conn: b}
 	co, so := opts(c.C), opts(c.S)
 	type side struct {
@@ -359,8 +385,15 @@ func runPolicy(c *Case, out *Out) {
 	ta.Close()
 	tb.Close()
 	desc := fmt.Sprintf("client options %+v, server options %+v, %s handshake", *co, *so, c.HS)
+	if c.Buffered {
+		desc += ", buffering connection"
+	}
 	viol := func(key, what string) {
 		out.Violations = append(out.Violations, Viol{"C08", key, what + " (" + desc + ")"})
+	}
+	// agreement between the two ends is stated by C07 as well as by C08
+	agree := func(key, what string) {
+		out.Violations = append(out.Violations, Viol{"C07,C08", key, what + " (" + desc + ")"})
 	}
 	_, cEnc := cl.conn.(*crypto.Conn)
 	_, sEnc := sv.conn.(*crypto.Conn)
@@ -372,7 +405,7 @@ func runPolicy(c *Case, out *Out) {
 			obs = "rc4"
 		}
 		if cEnc != sEnc {
-			viol("mode-disagreement", fmt.Sprintf("client encrypts: %v, server encrypts: %v", cEnc, sEnc))
+			agree("mode-disagreement", fmt.Sprintf("client encrypts: %v, server encrypts: %v", cEnc, sEnc))
 		}
 		// what is really on the wire
 		clear := bytes.Contains(ta.bytes(), payloadC[:28]) || bytes.Contains(tb.bytes(), payloadS[:28])
@@ -386,7 +419,7 @@ func runPolicy(c *Case, out *Out) {
 			viol("stream-not-transparent", "the payload received differs from the payload sent")
 		}
 		if !cl.res.Hash.Equal(infoHash) || !sv.res.Hash.Equal(infoHash) || !cl.res.Id.Equal(serverID) || !sv.res.Id.Equal(clientID) {
-			viol("handshake-disagreement", fmt.Sprintf("client sees %v/%v, server sees %v/%v", cl.res.Hash, cl.res.Id, sv.res.Hash, sv.res.Id))
+			agree("handshake-disagreement", fmt.Sprintf("client sees %v/%v, server sees %v/%v", cl.res.Hash, cl.res.Id, sv.res.Hash, sv.res.Id))
 		}
 		// the policy of each end
 		for _, e := range []struct {
@@ -407,7 +440,18 @@ func runPolicy(c *Case, out *Out) {
 			}
 		}
 	} else if (cl.err == nil) != (sv.err == nil) {
-		// one end believes the connection is up: the other closed it, harmless, but report as conformance
+		// one end reports an established connection (and a cipher mode) that the other end refused
+		mode := func(enc bool) string {
+			if enc {
+				return "rc4"
+			}
+			return "plain"
+		}
+		if cl.err == nil {
+			agree("outcome-disagreement", fmt.Sprintf("the client reports success (%s) although the server failed: %v", mode(cEnc), sv.err))
+		} else {
+			agree("outcome-disagreement", fmt.Sprintf("the server reports success (%s) although the client failed: %v", mode(sEnc), cl.err))
+		}
 	}
 	out.Observed = obs
 	exp := c.Exp
